@@ -1,5 +1,158 @@
-//! C09(b) — metamorphic trace equality under relabelling (filled in once the simulator exists).
-use crate::engine::*;
+//! C09(b) — metamorphic trace equality under relabelling: the same scenario run with different initial
+//! sequence numbers / connection ids (one run wrapping past 65535 mid-transfer) yields the same packet trace
+//! once every sequence, ack and connection-id field is shifted by its run's base.
+use std::collections::BTreeSet;
+
+use proptest::prelude::*;
+use serde::{Deserialize, Serialize};
 use serde_json::Value;
-pub fn run(_ctx: &mut Ctx) {}
-pub fn replay(_v: &Value) -> Option<i32> { None }
+
+use crate::engine::*;
+use crate::model::refparse::{self, RefPacket};
+use crate::props::c01;
+use crate::sim::{
+    WireRec,
+    e2e::{self, RunResult, Scenario},
+};
+
+#[derive(Clone, Debug, Serialize, Deserialize)]
+pub struct Case {
+    pub sc: Scenario,
+    /// second run: (connection-id base, initial sequence number) of connector and acceptor
+    pub alt: [(u16, u16); 2],
+}
+
+fn strategy(tier: Tier) -> BoxedStrategy<Case> {
+    let isn = || prop_oneof![
+        // wraps after k packets
+        6 => (1u32..400).prop_map(|k| (65536 - k) as u16),
+        1 => (400u32..3000).prop_map(|k| (65536 - k) as u16),
+        1 => Just(0u16), 1 => Just(1u16), 1 => Just(32767u16), 1 => Just(32768u16), 1 => any::<u16>(),
+    ];
+    let id = || prop_oneof![2 => Just(65535u16), 2 => Just(65534u16), 1 => Just(0u16), 2 => any::<u16>()];
+    (c01::scenario_strategy(tier.pick(150_000, 600_000), tier.pick(250, 600)), id(), isn(), id(), isn(), 100u16..30_000, 100u16..30_000)
+        .prop_map(|(mut sc, i0, s0, i1, s1, b0, b1)| {
+            // first run: small numbers, far from any wrap
+            sc.socks[0].rnd = vec![b0, b0.wrapping_add(7)];
+            sc.socks[1].rnd = vec![b1, b1.wrapping_add(11)];
+            sc.deadline_ms = 120_000;
+            Case { sc, alt: [(i0, s0), (i1, s1)] }
+        })
+        .boxed()
+}
+
+#[derive(Debug, PartialEq, Eq)]
+struct Norm {
+    t_us: u64,
+    from_connector: bool,
+    ptype: u8,
+    id_rel: u16,
+    seq_rel: u16,
+    ack_rel: Option<u16>,
+    wnd: u32,
+    ts: u32,
+    ts_diff: u32,
+    exts: Vec<(u8, Vec<u8>)>,
+    payload_len: usize,
+    payload_hash: u64,
+    disp: String,
+}
+
+/// (normalised trace, packets sent by the connector / acceptor, problems)
+fn normalise(log: &[WireRec]) -> Result<(Vec<Norm>, [u32; 2]), String> {
+    let syn = log.iter().find_map(|r| r.pkt.as_ref().filter(|p| p.ptype == refparse::ST_SYN).map(|p| (r.src, p.clone())));
+    let Some((connector, syn)) = syn else { return Ok((vec![], [0, 0])) };
+    let acc_first: Option<RefPacket> = log.iter().find_map(|r| r.pkt.as_ref().filter(|_| r.src != connector).cloned());
+    let base_id = syn.conn_id;
+    let base_seq = [syn.seq, acc_first.as_ref().map(|p| p.seq).unwrap_or(0)];
+    let mut out = vec![];
+    let mut counts = [0u32; 2];
+    for r in log {
+        let Some(p) = &r.pkt else { return Err(format!("log #{}: datagram does not parse", r.idx)) };
+        let fc = r.src == connector;
+        let me = if fc { 0 } else { 1 };
+        counts[me] = counts[me].max(p.seq.wrapping_sub(base_seq[me]) as u32);
+        out.push(Norm {
+            t_us: r.t_us,
+            from_connector: fc,
+            ptype: p.ptype,
+            id_rel: p.conn_id.wrapping_sub(base_id),
+            seq_rel: p.seq.wrapping_sub(base_seq[me]),
+            // the SYN's ack field is a constant; before the acceptor has spoken its base is unknown to nobody
+            ack_rel: if p.ptype == refparse::ST_SYN { None } else { Some(p.ack.wrapping_sub(base_seq[1 - me])) },
+            wnd: p.wnd,
+            ts: p.ts,
+            ts_diff: p.ts_diff,
+            exts: p.exts.clone(),
+            payload_len: p.payload.len(),
+            payload_hash: fnv64(&p.payload),
+            disp: format!("{:?}", r.disp),
+        });
+    }
+    Ok((out, counts))
+}
+
+fn app_summary(res: &RunResult) -> String {
+    res.conns.iter().map(|c| format!("{:?}/{:?}|{}", c.connect_err, c.connected_at_us, c.ep.iter().map(|e| format!("w{} r{} eof{} re{:?} we{:?} bad{:?} n{}", e.written, e.read, e.eof, e.read_err, e.write_err, e.first_bad_read_at, e.recs.len())).collect::<Vec<_>>().join(";"))).collect::<Vec<_>>().join("||")
+}
+
+pub struct Relabel;
+impl CheckDef for Relabel {
+    type Case = Case;
+    const NAME: &'static str = "relabel";
+    fn strategy(tier: Tier) -> BoxedStrategy<Case> {
+        strategy(tier)
+    }
+    fn run(case: &Case, trace: bool) -> Outcome {
+        let r1 = e2e::run(&case.sc, false);
+        let mut sc2 = case.sc.clone();
+        sc2.socks[0].rnd = vec![case.alt[0].0, case.alt[0].1];
+        sc2.socks[1].rnd = vec![case.alt[1].0, case.alt[1].1];
+        let r2 = e2e::run(&sc2, trace);
+        let (n1, _) = match normalise(&r1.log) { Ok(x) => x, Err(e) => return Outcome::discard(e) };
+        let (n2, counts2) = match normalise(&r2.log) { Ok(x) => x, Err(e) => return Outcome::discard(e) };
+        for (i, (a, b)) in n1.iter().zip(n2.iter()).enumerate() {
+            if a != b {
+                return Outcome::violation("relabel/trace-differs", format!("the runs differ at datagram #{i} although only the initial sequence numbers / connection ids differ (second run: ids {:?}/{:?}, ISNs {}/{}).\n  run 1: {}\n  run 2: {}\n  normalised 1: {:?}\n  normalised 2: {:?}", case.alt[0].0, case.alt[1].0, case.alt[0].1, case.alt[1].1, r1.log[i].line(), r2.log[i].line(), a, b));
+            }
+        }
+        if n1.len() != n2.len() {
+            let (longer, which) = if n1.len() > n2.len() { (&r1.log, 1) } else { (&r2.log, 2) };
+            return Outcome::violation("relabel/trace-differs", format!("run {which} emits {} more datagram(s); the first extra one: {}", n1.len().abs_diff(n2.len()), longer[n1.len().min(n2.len())].line()));
+        }
+        let (a1, a2) = (app_summary(&r1), app_summary(&r2));
+        if a1 != a2 {
+            return Outcome::violation("relabel/application-differs", format!("the applications observe different things:\n  run 1: {a1}\n  run 2: {a2}"));
+        }
+        let mut o = Outcome::pass();
+        let mut labels: BTreeSet<&'static str> = BTreeSet::new();
+        // did the second run wrap in mid-transfer?
+        let wrap = |isn: u16, count: u32| (isn as u32 + count) > 65535 && isn != 0;
+        let w0 = wrap(case.alt[0].1, counts2[0]);
+        let w1 = wrap(case.alt[1].1, counts2[1]);
+        if w0 || w1 { labels.insert("seq_wrapped_mid_transfer"); }
+        let retx = {
+            let mut seen = BTreeSet::new();
+            r2.log.iter().any(|r| r.from_stack && r.pkt.as_ref().is_some_and(|p| p.ptype == refparse::ST_DATA && !seen.insert((r.src, p.seq))))
+        };
+        if retx { labels.insert("retransmission"); }
+        if r2.log.iter().any(|r| r.pkt.as_ref().is_some_and(|p| p.last_ext(1).is_some())) { labels.insert("selective_ack"); }
+        if (w0 || w1) && retx { labels.insert("wrap_with_loss"); }
+        o.nontrivial = (w0 || w1) && retx;
+        o.labels = labels.into_iter().collect();
+        let mut fp = Fp::default();
+        for n in &n2 { fp.add(((n.ptype as u64) << 48) | ((n.seq_rel as u64) << 24) | n.payload_len as u64); fp.add(n.t_us); }
+        o.fingerprint = fp.get();
+        o
+    }
+}
+
+pub fn run(ctx: &mut Ctx) {
+    ctx.rule("(b) relabel: generated lossy end-to-end scenarios (transfers up to 150 KB / 600 KB both ways, adversarial drop/dup/delay plans, path-MTU black holes, all buffer/MTU configurations) are run twice: with small initial numbers, and with generated ones (75 % placing the 65535->0 wrap k = 1..400 / 3000 packets into the transfer, connection ids at 65534/65535/0). Oracle: the two wire logs are equal datagram by datagram (instant, direction, type, window, timestamps, extension bytes, payload, fate) with seq/ack/connection id taken relative to each run's bases, and the applications observe the same. non-trivial = the second run wrapped in mid-transfer and retransmitted something; distinct by hash of the normalised trace");
+    ctx.replay_corpus::<Relabel>();
+    ctx.run_generated::<Relabel>(ctx.tier.pick(12_000, 400_000));
+}
+
+pub fn replay(v: &Value) -> Option<i32> {
+    replay_file::<Relabel>("C09", v)
+}
